@@ -123,4 +123,305 @@ theorem missing_empty (lang : Lang) (symbol state : Nat) (padding : Length) (loo
     errorCostOf (newMissingLeaf lang symbol state padding lookahead) = 610 := by
   simp [newMissingLeaf, newLeaf, Tree.data, Tree.kids, errorCostOf, ERROR_COST_PER_MISSING_TREE, ERROR_COST_PER_RECOVERY]
 
+mutual
+  /-- `summarize_counts`: in every tree whose inner nodes carry the port's summaries (and in which
+  the `end` symbol is extra — part of `shapeOK`), the advertised child count, named-child count and
+  descendant count of EVERY node equal the lengths of the enumerations that `ts_node_child`
+  iteration yields (aliases and hidden children included). -/
+  theorem summarize_counts (lang : Lang) : ∀ (t : Tree) (ps : Option Nat), Summarized lang t → shapeOK ps t = true →
+      t.data.visibleChildCount = (enumChildren lang t).length ∧
+      t.data.namedChildCount = ((enumChildren lang t).filter (entryNamed lang)).length ∧
+      t.data.visibleDescendantCount = countDesc lang t
+    | .mk d kids, ps, hs, hsh => by
+      unfold Summarized at hs
+      unfold shapeOK at hsh
+      simp only [Bool.and_eq_true] at hsh
+      have hk := sum_counts lang kids d.productionId 0 (some d.symbol) hs.2.2 hsh.2
+      unfold enumChildren countDesc
+      simp only [Tree.data]
+      cases hkk : kids with
+      | nil =>
+        have hl := hs.1 hkk
+        simp [enumKids, countDescKids, hl.2.1, hl.2.2.1, hl.2.2.2]
+      | cons c rest =>
+        have hne : kids ≠ [] := by simp [hkk]
+        have hn := hs.2.1 hne
+        have hc := summarize_counts_eq lang length_zero d kids
+        rw [← hkk]
+        refine ⟨?_, ?_, ?_⟩
+        · rw [hn.2.2.2.1, hc.1, hk.1]
+        · rw [hn.2.2.2.2.1, hc.2.1, hk.2.1]
+        · rw [hn.2.2.2.2.2, hc.2.2, hk.2.2]
+  theorem sum_counts (lang : Lang) : ∀ (kids : List Tree) (pid si : Nat) (ps : Option Nat),
+      SummarizedL lang kids → shapeOKL ps kids = true →
+      sumSI (fun si c => (childCounts lang pid si c).1) kids si = (enumKids lang pid kids si).length ∧
+      sumSI (fun si c => (childCounts lang pid si c).2.1) kids si = ((enumKids lang pid kids si).filter (entryNamed lang)).length ∧
+      sumSI (fun si c => (childCounts lang pid si c).2.2) kids si = countDescKids lang pid kids si
+    | [], _, _, _, _, _ => by simp [sumSI, enumKids, countDescKids]
+    | c :: rest, pid, si, ps, hs, hsh => by
+      unfold SummarizedL at hs
+      unfold shapeOKL at hsh
+      simp only [Bool.and_eq_true] at hsh
+      have ihc := summarize_counts lang c ps hs.1 hsh.1
+      have ihr := sum_counts lang rest pid (if c.data.extra then si else si + 1) ps hs.2 hsh.2
+      have hend : c.data.symbol = 0 → c.data.extra = true := by
+        obtain ⟨cd, ck⟩ := c
+        have h := hsh.1
+        unfold shapeOK at h
+        simp only [Bool.and_eq_true, Bool.or_eq_true, bne_iff_ne, ne_eq] at h
+        intro h0
+        simp only [Tree.data] at h0 ⊢
+        cases h.1.2 with
+        | inl h1 => exact absurd h0 h1
+        | inr h1 => exact h1
+      have hcc := childCounts_spec lang pid si c hend ihc
+      simp only [sumSI, enumKids, countDescKids, List.length_append, List.filter_append]
+      rw [hcc.1, hcc.2.1, hcc.2.2, ihr.1, ihr.2.1, ihr.2.2]
+      simp [Nat.add_assoc]
+end
+
+mutual
+  /-- `has_error_iff_partial` (cost form): in a summarized tree with the parser's shape invariant,
+  `ts_subtree_error_cost > 0` holds exactly when the subtree contains a MISSING node or an
+  ERROR/`_ERROR` node *that has children*. -/
+  theorem cost_pos_iff (lang : Lang) : ∀ (t : Tree) (ps : Option Nat), Summarized lang t → shapeOK ps t = true →
+      (errorCostOf t > 0 ↔ costlyErr t = true)
+    | .mk d kids, ps, hs, hsh => by
+      unfold Summarized at hs
+      unfold shapeOK at hsh
+      simp only [Bool.and_eq_true] at hsh
+      unfold costlyErr errorCostOf
+      simp only [Tree.data]
+      by_cases hm : d.isMissing = true
+      · simp [hm, ERROR_COST_PER_MISSING_TREE, ERROR_COST_PER_RECOVERY]
+      · have hm' : d.isMissing = false := by simpa using hm
+        simp only [hm', if_false, Bool.false_eq_true, Bool.false_or]
+        cases hkk : kids with
+        | nil =>
+          have hl := hs.1 hkk
+          simp [hl.1, costlyErrL]
+        | cons c rest =>
+          have hne : kids ≠ [] := by simp [hkk]
+          have hemp : kids.isEmpty = false := by simp [hkk]
+          have hn := hs.2.1 hne
+          have he := summarize_errorCost_eq lang length_zero d kids
+          rw [← hkk, hn.2.2.1, he]
+          by_cases hsym : isErrSym d.symbol = true
+          · have hpos := extent_cost_pos (loop lang d.symbol d.productionId kids 0 { padding := d.padding, size := length_zero }).size
+            simp only [hsym, if_true, hemp, Bool.not_false, Bool.and_self, Bool.true_or, iff_true]
+            omega
+          · have hsym' : isErrSym d.symbol = false := by simpa using hsym
+            have hk := sumErr_pos_iff lang kids d.symbol hs.2.2 hsh.2 hsym'
+            simp only [hsym', if_false, Bool.false_eq_true, Bool.false_and, Bool.false_or]
+            exact hk
+  theorem sumErr_pos_iff (lang : Lang) : ∀ (kids : List Tree) (sym : Nat), SummarizedL lang kids →
+      shapeOKL (some sym) kids = true → isErrSym sym = false →
+      (sumErr sym kids > 0 ↔ costlyErrL kids = true)
+    | [], _, _, _, _ => by simp [sumErr, costlyErrL]
+    | c :: rest, sym, hs, hsh, hsym => by
+      unfold SummarizedL at hs
+      unfold shapeOKL at hsh
+      simp only [Bool.and_eq_true] at hsh
+      have ihc := cost_pos_iff lang c (some sym) hs.1 hsh.1
+      have ihr := sumErr_pos_iff lang rest sym hs.2 hsh.2 hsym
+      have hrep : c.data.symbol ≠ symErrorRepeat := by
+        obtain ⟨cd, ck⟩ := c
+        have h := hsh.1
+        unfold shapeOK at h
+        simp only [Bool.and_eq_true, Bool.or_eq_true, bne_iff_ne, ne_eq] at h
+        simp only [Tree.data]
+        cases h.1.1.1 with
+        | inl h1 => exact h1
+        | inr h1 => simp [hsym] at h1
+      have hce : childErrorCost sym c = errorCostOf c := by
+        simp [childErrorCost, hrep, hsym]
+      simp only [sumErr, costlyErrL, hce, Bool.or_eq_true]
+      rw [← ihc, ← ihr]
+      omega
+end
+
+/-- `has_error_iff_partial`: what the unchanged `ts_node_has_error` reports for ANY node of a
+summarized, parser-shaped tree is "a MISSING node, or an ERROR/`_ERROR` node with children, at or
+below" — which is the property's right-hand side except for childless ERROR nodes. -/
+theorem has_error_iff_partial (lang : Lang) (t : Tree) (ps : Option Nat)
+    (hs : Summarized lang t) (hsh : shapeOK ps t = true) : nodeHasError t = costlyErr t := by
+  have h := cost_pos_iff lang t ps hs hsh
+  unfold nodeHasError
+  by_cases hc : costlyErr t = true
+  · simp [hc, h.mpr hc]
+  · have : ¬ (errorCostOf t > 0) := fun hp => hc (h.mp hp)
+    simp [hc, this]
+
+mutual
+  /-- An ERROR or MISSING node at or below is detected by the cost, unless the node itself is a
+  childless ERROR node. -/
+  theorem contains_costly : ∀ (t : Tree) (ps : Option Nat), shapeOK ps t = true → containsErr t = true →
+      costlyErr t = true ∨ (t.data.symbol = symError ∧ t.kids = [])
+    | .mk d kids, ps, hsh, hc => by
+      unfold shapeOK at hsh
+      simp only [Bool.and_eq_true] at hsh
+      unfold containsErr at hc
+      unfold costlyErr
+      simp only [Bool.or_eq_true, beq_iff_eq] at hc
+      simp only [Tree.data, Tree.kids, Bool.or_eq_true, Bool.and_eq_true]
+      rcases hc with (hm | he) | hl
+      · exact .inl (.inl (.inl hm))
+      · cases kids with
+        | nil => exact .inr ⟨he, rfl⟩
+        | cons c rest => exact .inl (.inl (.inr ⟨by simp [isErrSym, he], by simp⟩))
+      · have := containsL_costly kids d.symbol hsh.2 hl
+        rcases this with h1 | ⟨h2, h3⟩
+        · exact .inl (.inr h1)
+        · exact .inl (.inl (.inr ⟨h2, by cases kids with
+            | nil => simp [containsErrL] at hl
+            | cons c rest => simp⟩))
+  theorem containsL_costly : ∀ (kids : List Tree) (sym : Nat), shapeOKL (some sym) kids = true →
+      containsErrL kids = true → costlyErrL kids = true ∨ (isErrSym sym = true ∧ True)
+    | [], _, _, h => by simp [containsErrL] at h
+    | c :: rest, sym, hsh, h => by
+      unfold shapeOKL at hsh
+      simp only [Bool.and_eq_true] at hsh
+      unfold containsErrL at h
+      simp only [Bool.or_eq_true] at h
+      unfold costlyErrL
+      simp only [Bool.or_eq_true]
+      rcases h with h | h
+      · rcases contains_costly c (some sym) hsh.1 h with h1 | ⟨h2, h3⟩
+        · exact .inl (.inl h1)
+        · -- a childless ERROR child: the shape invariant makes the parent an error node
+          obtain ⟨cd, ck⟩ := c
+          have hh := hsh.1
+          unfold shapeOK at hh
+          simp only [Bool.and_eq_true, Bool.or_eq_true, Bool.not_eq_true'] at hh
+          simp only [Tree.data, Tree.kids] at h2 h3
+          have := hh.1.1.2
+          subst h3
+          simp [h2] at this
+          exact .inr ⟨this, trivial⟩
+      · rcases containsL_costly rest sym hsh.2 h with h1 | h2
+        · exact .inl (.inr h1)
+        · exact .inr h2
+end
+
+mutual
+  /-- What the cost detects is an ERROR/MISSING at or below, unless the node itself is `_ERROR`. -/
+  theorem costly_contains : ∀ (t : Tree) (ps : Option Nat), shapeOK ps t = true → costlyErr t = true →
+      containsErr t = true ∨ t.data.symbol = symErrorRepeat
+    | .mk d kids, ps, hsh, hc => by
+      unfold shapeOK at hsh
+      simp only [Bool.and_eq_true] at hsh
+      unfold costlyErr at hc
+      unfold containsErr
+      simp only [Bool.or_eq_true, Bool.and_eq_true] at hc
+      simp only [Tree.data, Bool.or_eq_true, beq_iff_eq]
+      rcases hc with (hm | ⟨he, _⟩) | hl
+      · exact .inl (.inl (.inl hm))
+      · simp only [isErrSym, Bool.or_eq_true, beq_iff_eq] at he
+        rcases he with he | he
+        · exact .inl (.inl (.inr he))
+        · exact .inr he
+      · rcases costlyL_contains kids d.symbol hsh.2 hl with h1 | h2
+        · exact .inl (.inr h1)
+        · simp only [isErrSym, Bool.or_eq_true, beq_iff_eq] at h2
+          rcases h2 with h2 | h2
+          · exact .inl (.inl (.inr h2))
+          · exact .inr h2
+  theorem costlyL_contains : ∀ (kids : List Tree) (sym : Nat), shapeOKL (some sym) kids = true →
+      costlyErrL kids = true → containsErrL kids = true ∨ isErrSym sym = true
+    | [], _, _, h => by simp [costlyErrL] at h
+    | c :: rest, sym, hsh, h => by
+      unfold shapeOKL at hsh
+      simp only [Bool.and_eq_true] at hsh
+      unfold costlyErrL at h
+      simp only [Bool.or_eq_true] at h
+      unfold containsErrL
+      simp only [Bool.or_eq_true]
+      rcases h with h | h
+      · rcases costly_contains c (some sym) hsh.1 h with h1 | h2
+        · exact .inl (.inl h1)
+        · obtain ⟨cd, ck⟩ := c
+          have hh := hsh.1
+          unfold shapeOK at hh
+          simp only [Bool.and_eq_true, Bool.or_eq_true, bne_iff_ne, ne_eq] at hh
+          simp only [Tree.data] at h2
+          rcases hh.1.1.1 with h3 | h3
+          · exact absurd h2 h3
+          · exact .inr h3
+      · rcases costlyL_contains rest sym hsh.2 h with h1 | h2
+        · exact .inl (.inr h1)
+        · exact .inr h2
+end
+
+/-- `has_error_fixed_iff`: with the repair of fixes/C02-has-error-leaf.diff
+(`error_cost > 0 || is_error`) the property's clause holds in full for every node that the API can
+return (the hidden `_ERROR` repeat is never a `TSNode`): has_error ⇔ an ERROR or MISSING node at or
+below — for all languages and all summarized, parser-shaped trees. -/
+theorem has_error_fixed_iff (lang : Lang) (t : Tree) (ps : Option Nat)
+    (hs : Summarized lang t) (hsh : shapeOK ps t = true) (hrep : t.data.symbol ≠ symErrorRepeat) :
+    nodeHasErrorFixed t = containsErr t := by
+  have h1 := has_error_iff_partial lang t ps hs hsh
+  unfold nodeHasError at h1
+  unfold nodeHasErrorFixed
+  rw [h1]
+  by_cases hc : containsErr t = true
+  · rcases contains_costly t ps hsh hc with h | ⟨h, _⟩
+    · simp [hc, h]
+    · simp [hc, h]
+  · by_cases hk : costlyErr t = true
+    · rcases costly_contains t ps hsh hk with h | h
+      · exact absurd h hc
+      · exact absurd h hrep
+    · have hne : (t.data.symbol == symError) = false := by
+        obtain ⟨d, kids⟩ := t
+        unfold containsErr at hc
+        simp only [Bool.or_eq_true, not_or, Bool.not_eq_true] at hc
+        simpa [Tree.data] using hc.1.2
+      simp [hc, hk, hne]
+
+/-- The childless ERROR node of the confirmed defect (`ab ? cd (x` in grammar `lst`, node [3,4]),
+exactly as dumped from the real tree. -/
+def errorLeafWitness : Tree :=
+  .mk { (default : NodeData) with symbol := symError, padding := ⟨1, ⟨0, 1⟩⟩, size := ⟨1, ⟨0, 1⟩⟩, lookahead := 4
+                                  parseState := 6, visible := true, named := true
+                                  fragileLeft := true, fragileRight := true, errorCost := 0, ext := "c63" } []
+
+/-- `has_error_full_false` — the FULL clause ("has_error exactly when it or a descendant is ERROR
+or MISSING") is false for the unchanged `ts_node_has_error`: the witness is summarized, has the
+parser's shape below an `_ERROR` parent, is an ERROR node, and reports has_error = false.
+OPEN (false on the unchanged code, true after the fix, see `has_error_fixed_iff`):
+  ∀ lang t ps, Summarized lang t → shapeOK ps t → t.symbol ≠ _ERROR → nodeHasError t = containsErr t -/
+theorem has_error_full_false :
+    ∃ (lang : Lang) (t : Tree) (ps : Option Nat), Summarized lang t ∧ shapeOK ps t = true ∧
+      t.data.symbol ≠ symErrorRepeat ∧ nodeHasError t = false ∧ containsErr t = true := by
+  refine ⟨{}, errorLeafWitness, some symErrorRepeat, ?_, ?_, ?_, ?_, ?_⟩
+  · unfold errorLeafWitness Summarized
+    refine ⟨fun _ => ?_, fun h => absurd rfl h, ?_⟩
+    · simp [LeafOK]
+      decide
+    · unfold SummarizedL; trivial
+  · decide
+  · decide
+  · decide
+  · decide
+
+/-! ## Non-vacuity: a two-level tree built by the port satisfies the hypotheses -/
+
+/-- A tiny language: symbol 1 = visible named token, 2 = visible named rule, 3 = hidden rule. -/
+def demoLang : Lang :=
+  { symbolCount := 4, tokenCount := 2
+    syms := #[{ name := "end" }, { visible := true, named := true, pub := 1, name := "tok" },
+              { visible := true, named := true, pub := 2, name := "rule" }, { pub := 3, name := "_hidden" }] }
+
+def demoLeaf (pad size : Nat) : Tree :=
+  newLeaf demoLang 1 ⟨pad, ⟨0, pad⟩⟩ ⟨size, ⟨0, size⟩⟩ 1 1 false false false
+
+def demoTree : Tree :=
+  newNode demoLang 2 [demoLeaf 0 2, newNode demoLang 3 [demoLeaf 1 1, newMissingLeaf demoLang 1 0 ⟨1, ⟨0, 1⟩⟩ 0] 0, demoLeaf 2 3] 0
+
+example : shapeOK none demoTree = true := by decide
+example : nodeHasError demoTree = true ∧ costlyErr demoTree = true ∧ containsErr demoTree = true := by decide
+example : (enumChildren demoLang demoTree).length = 4 ∧ demoTree.data.visibleChildCount = 4 ∧
+    demoTree.data.visibleDescendantCount = 4 ∧ demoTree.data.size.bytes = 10 := by decide
+example : layoutEnd demoTree.kids length_zero = length_add (length_add length_zero demoTree.data.padding) demoTree.data.size := by decide
+
 end TsVerif.C02
